@@ -123,6 +123,13 @@ class BoboValidatorJSONSchema(BoboValidatorJSONable):
 
         :raises: BoboValidatorError: Invalid JSON schema.
         """
+        if isinstance(data, BoboEvent):
+            data = data.data
+
+        # Data must be JSONable before it can be valid against a JSON schema.
+        if not super().is_valid(data):
+            return False
+
         try:
             jsonschema_validate(instance=data, schema=self._schema)
 
